@@ -993,6 +993,99 @@ def r9_parameter_list_guarded(prog, res):
     res.floor("R9.parameter_list_guarded", "callers of ALGargs_out", n, 2)
 
 
+def r10_group_key(prog, res):
+    """ALGargs_out merges adjacent formal parameters into `a, b : t`.  What is printed once per group - `VAR` in front, the type
+    behind - holds for every member of the group, so a new group must start exactly when one of those properties differs from the
+    previous parameter's.  The group-break condition is evaluated for every combination of (previous, current) values of each
+    remembered property: it must be true iff some pair differs."""
+    f = prog.one("ALGargs_out")
+    if f is None:
+        res.broke("anchor vanished: ALGargs_out")
+        return
+    # remembered properties: prevX = v-><path>
+    pairs = {}
+    for x in f.walk():
+        if x["k"] == "Assign":
+            l, r = strip(x["ch"][0]), strip(x["ch"][1])
+            while r is not None and r["k"] == "Cast":
+                r = strip(r["ch"][0])
+            if l is not None and l["k"] == "Ref" and l.get("dk") == "local" and r is not None and r["k"] == "Member" and \
+                    not (x.get("m") or x.get("mo") or l.get("m") or l.get("mo")):
+                pairs[l["d"]] = (l["n"], expr_str(r))
+    # the condition under which a new group is opened: the If whose then-branch prints the optional VAR
+    cond = None
+    for x in f.walk():
+        if x["k"] == "If" and any(y["k"] == "Str" and y.get("s", "").startswith("VAR") for y in walk(x["ch"][1])) and \
+                any(y["k"] == "Ref" and y.get("d") in pairs for y in walk(x["ch"][0])):
+            cond = x
+    if cond is None or len(pairs) < 2:
+        res.broke("R10: the group-break condition of ALGargs_out (or the remembered properties) was not found")
+        return
+    names = sorted(pairs)
+
+    def ev(n, env):
+        n = strip(n)
+        while n is not None and n["k"] == "Cast":
+            n = strip(n["ch"][0])
+        if n is None:
+            return None
+        if n["k"] == "Ref" and n.get("d") in pairs:
+            return env[("prev", n["d"])]
+        if n["k"] == "Member":
+            t = expr_str(n)
+            for d_, (_, path) in pairs.items():
+                if path == t:
+                    return env[("cur", d_)]
+            return None
+        if "val" in n and n["k"] in ("Int", "Bool"):
+            return n["val"]
+        if n["k"] == "Unary" and n.get("op") == "!":
+            v = ev(n["ch"][0], env)
+            return None if v is None else (0 if v else 1)
+        if n["k"] == "Binary":
+            a, b = ev(n["ch"][0], env), ev(n["ch"][1], env)
+            op = n.get("op")
+            if op == "&&":
+                return 0 if (a == 0 or b == 0) else (None if (a is None or b is None) else 1)
+            if op == "||":
+                return 1 if (a not in (0, None) or b not in (0, None)) else (None if (a is None or b is None) else 0)
+            if a is None or b is None:
+                return None
+            if op == "!=":
+                return 1 if a != b else 0
+            if op == "==":
+                return 1 if a == b else 0
+        return None
+    bad = None
+    import itertools
+    for vals in itertools.product((1, 2), repeat=2 * len(names)):
+        env = {}
+        for i, d_ in enumerate(names):
+            env[("prev", d_)] = vals[2 * i]
+            env[("cur", d_)] = vals[2 * i + 1]
+        # truthiness of flags: 1 = false-like?  use 0/1 for flag-like properties, 1/2 as two distinct non-null values for pointers
+        for d_ in names:
+            if "flags" in pairs[d_][1] or "var" in pairs[d_][1].lower().split(".")[-1]:
+                env[("prev", d_)] -= 1
+                env[("cur", d_)] -= 1
+        want = 1 if any(env[("prev", d_)] != env[("cur", d_)] for d_ in names) else 0
+        got = ev(cond["ch"][0], env)
+        if got is None:
+            bad = ("the condition cannot be evaluated", env)
+            break
+        if (1 if got else 0) != want:
+            bad = ("it is %s" % ("true" if got else "false"), env)
+            break
+    ok = bad is None
+    desc = ""
+    if bad:
+        desc = ", ".join("%s = %s / %s = %s" % (pairs[d_][0], bad[1][("prev", d_)], pairs[d_][1], bad[1][("cur", d_)]) for d_ in names)
+    res.add("R10.group_breaks_when_a_printed_property_changes", "R10|src/exppp/pretty_alg.c|ALGargs_out|group-key", f.where(cond), ok,
+            "a new parameter group starts exactly when %s differ from the previous parameter's" % " or ".join(p_[1] for p_ in pairs.values()) if ok else
+            "for %s a new group should start %s, but %s: parameters with different VAR-ness / type are merged into one `a, b : t` group, "
+            "so the printed declaration is not the one that was read" % (desc, "(something differs)" if any(bad[1][("prev", d_)] != bad[1][("cur", d_)] for d_ in names) else "only if something differs", bad[0]))
+
+
 def run(prog, res, tier):
     gr = Grammar(prog, res)
     if not gr.ok:
@@ -1009,3 +1102,4 @@ def run(prog, res, tier):
     r7_chain_flattening(prog, res)
     r8_quote_escape(prog, res)
     r9_parameter_list_guarded(prog, res)
+    r10_group_key(prog, res)
